@@ -92,7 +92,7 @@ def main():
         "version": 1,
         "setup_cmd": "make -C /verif setup",
         "hooks": {"guard": "MINPLASCALC_VERIF", "enable": "export MINPLASCALC_VERIF=1 (set by ./check); no rebuild needed, pure Python",
-                  "baseline_off_cmd": BASE, "source_commits": [], "add_only": True},
+                  "baseline_off_cmd": BASE, "source_commits": ["a695551"], "add_only": True},
         "engines": [{"name": "coq-proof", "path": "/verif/coq", "serves_properties": sorted(CLAIMED),
                      "kind_free_text": "Coq 8.16 development: kernels regenerated from /repo by translator/py2coq.py, specs, proofs, "
                                        "thm/Cxx.v property theorems; extraction to OCaml for the differential correspondence check (harness/)"}],
